@@ -223,8 +223,14 @@ func findInAlternates[T any](s *ObjectStorage, fn func(*ObjectStorage) (T, error
 	}
 
 	err := g.Wait()
-	if err != nil && !found {
-		return zero, errors.Join(err, plumbing.ErrObjectNotFound)
+	if !found {
+		// Nobody has it. (Without this, "not found" in every alternate came
+		// back as the zero value and a nil error: an absent object was
+		// reported as present, with size 0.)
+		if err != nil {
+			return zero, errors.Join(err, plumbing.ErrObjectNotFound)
+		}
+		return zero, plumbing.ErrObjectNotFound
 	}
 	return foundVal, nil
 }
